@@ -19,7 +19,8 @@
 From Coq Require Import List Arith Bool Lia PeanoNat Permutation.
 From VBase Require Import FieldOps.
 From VModel Require Import FFT Par.
-From VProofs Require Import ParCommute ParExamples ParBatch ParMisc ParPermute ParMerkle ParEvalTable.
+From VModel Require Merkle.   (* C10's model of the sequential builder; not imported: its [Ok]/[Panic] would shadow Par's *)
+From VProofs Require Import ParCommute ParExamples ParBatch ParMisc ParPermute ParMerkle ParEvalTable ParMerkleC10 ParMaps.
 Import ListNotations.
 
 (* ================================================================ generic fork-join model *)
@@ -275,6 +276,100 @@ Print Assumptions C14_merkle_dispatch_spec.
 Theorem C14_merkle_hyp_sat : npo2 64 <= 2 ^ 10.
 Proof. exact merkle_hyp_sat. Qed.
 Print Assumptions C14_merkle_hyp_sat.
+
+(* function level, composing with C10: crypto::merkle::concurrent::build_merkle_nodes = crypto::merkle::build_merkle_nodes.
+   For every n = 2^k leaf pairs, every thread count T whose number of subtrees npo2 T = 2^j is admissible (<= n), any hash
+   [merge], any content of the un-initialised vector, every schedule / complete interleaving: the concurrent node vector EQUALS
+   the node vector of C10's sequential model Model/Merkle.v [build_nodes] (so C10's theorems about mt_new / prove / verify apply
+   to trees built concurrently).  Footprint disjointness: C14_merkle_par_footprints. *)
+Theorem C14_build_merkle_nodes_concurrent_eq : forall (D : Type) (d0 : D) (merge : D -> D -> D) k T leaves junk nodes,
+  let n := 2 ^ k in
+  length leaves = 2 * n -> length junk = 2 * n -> npo2 T <= n ->
+  Merkle.build_nodes D d0 merge leaves = Merkle.Ok nodes ->
+  (forall s1 s2, Permutation s1 (seq 0 n) -> Permutation s2 (seq 0 (npo2 T)) ->
+     merkle_par d0 merge leaves junk T s1 s2 = Done nodes) /\
+  (forall ch1 ch2 r, merkle_par_interleaved d0 merge leaves junk T ch1 ch2 = Done (r, true) -> r = nodes) /\
+  (forall conc s1 s2, Permutation s1 (seq 0 n) -> Permutation s2 (seq 0 (npo2 T)) ->
+     merkle_nodes_dispatch d0 merge conc leaves junk T s1 s2 = Done nodes).
+Proof. intros D d0 merge. exact (build_merkle_nodes_concurrent_eq d0 merge). Qed.
+Print Assumptions C14_build_merkle_nodes_concurrent_eq.
+
+Theorem C14_merkle_serial_is_C10_build_nodes : forall (D : Type) (d0 : D) (merge : D -> D -> D) n leaves junk,
+  1 <= n -> length leaves = 2 * n -> length junk = 2 * n ->
+  Merkle.build_nodes D d0 merge leaves = Merkle.Ok (merkle_serial d0 merge leaves junk).
+Proof. intros D d0 merge. exact (merkle_serial_is_C10_build_nodes d0 merge). Qed.
+Print Assumptions C14_merkle_serial_is_C10_build_nodes.
+
+(* non-vacuity of the premise `build_nodes .. = Ok nodes`, a computed instance, and the off-by-one twin (every subtree range
+   shifted by one cell): refuted *)
+Theorem C14_build_nodes_total : forall (D : Type) (d0 : D) (merge : D -> D -> D) k leaves,
+  length leaves = 2 * 2 ^ k -> exists nodes, Merkle.build_nodes D d0 merge leaves = Merkle.Ok nodes.
+Proof. intros D d0 merge. exact (build_nodes_total d0 merge). Qed.
+Print Assumptions C14_build_nodes_total.
+
+Theorem C14_merkle_concurrent_eq_ex : exists nodes, Merkle.build_nodes nat 0 c10_mg (seq 10 32) = Merkle.Ok nodes /\
+  merkle_par 0 c10_mg (seq 10 32) (repeat 99 32) 3 (rev (seq 0 16)) [2; 0; 3; 1] = Done nodes.
+Proof. exact merkle_concurrent_eq_ex. Qed.
+Print Assumptions C14_merkle_concurrent_eq_ex.
+
+Theorem C14_merkle_subtree_offby1_refuted : exists r, offby1_result (seq 10 32) (repeat 99 32) 3 = Some r /\
+  Merkle.build_nodes nat 0 c10_mg (seq 10 32) <> Merkle.Ok r.
+Proof. exact merkle_subtree_offby1_refuted. Qed.
+Print Assumptions C14_merkle_subtree_offby1_refuted.
+
+(* ================================================================ plain parallel maps (iter!/iter_mut!) *)
+
+(* stated once, generically: a map over disjoint single-cell tasks (in place, or into a fresh vector whatever it contained)
+   equals the sequential map under every schedule; footprints well-formed and pairwise disjoint *)
+Theorem C14_par_update_spec : forall (V : Type) (d : V) (g : nat -> V -> V) a n sched,
+  length a = n -> Permutation sched (seq 0 n) ->
+  Forall (task_ok d) (par_update_tasks d g n) /\ ForallOrdPairs independent (par_update_tasks d g n) /\
+  exec (reorder (par_update_tasks d g n) sched) a = map (fun i => g i (nth i a d)) (seq 0 n).
+Proof. intros V d. exact (par_update_spec d). Qed.
+Print Assumptions C14_par_update_spec.
+
+Theorem C14_par_map_spec : forall (V : Type) (d : V) (f : nat -> V) junk n sched,
+  length junk = n -> Permutation sched (seq 0 n) ->
+  Forall (task_ok d) (par_map_tasks d f n) /\ ForallOrdPairs independent (par_map_tasks d f n) /\
+  exec (reorder (par_map_tasks d f n) sched) junk = par_map_serial f n.
+Proof. intros V d. exact (par_map_spec d). Qed.
+Print Assumptions C14_par_map_spec.
+
+(* instances: utils::transpose_slice, fri::utils::hash_values, fri::folding::apply_drp, acc_column (boundary branch),
+   per-column iterators of ColMatrix / composition / DEEP composition *)
+Theorem C14_transpose_slice_par_spec : forall (T : Type) (dt : T) (source : list T) N junk sched,
+  let rows := length source / N in
+  length junk = rows -> Permutation sched (seq 0 rows) ->
+  exec (reorder (transpose_slice_tasks dt source N) sched) junk = map (transpose_slice_row dt source N rows) (seq 0 rows).
+Proof. intros T. exact (@transpose_slice_par_spec T). Qed.
+Print Assumptions C14_transpose_slice_par_spec.
+
+Theorem C14_hash_values_par_spec : forall (R Dg : Type) (dd : Dg) (dr : R) (hash_row : R -> Dg) values junk sched,
+  length junk = length values -> Permutation sched (seq 0 (length values)) ->
+  exec (reorder (hash_values_tasks dd dr hash_row values) sched) junk = map hash_row values.
+Proof. intros R Dg. exact (@hash_values_par_spec R Dg). Qed.
+Print Assumptions C14_hash_values_par_spec.
+
+Theorem C14_apply_drp_par_spec : forall (R B E : Type) (de : E) (dr : R) (db : B) (fold_row : R -> B -> E) values inv_offsets junk sched,
+  length junk = length values -> Permutation sched (seq 0 (length values)) ->
+  exec (reorder (apply_drp_tasks de dr db fold_row values inv_offsets) sched) junk =
+  map (fun i => fold_row (nth i values dr) (nth i inv_offsets db)) (seq 0 (length values)).
+Proof. intros R B E. exact (@apply_drp_par_spec R B E). Qed.
+Print Assumptions C14_apply_drp_par_spec.
+
+Theorem C14_acc_column_boundary_par_spec : forall (E : Type) (de : E) (mul_add : E -> E -> nat -> E) column zl acc sched,
+  length acc = length column -> Permutation sched (seq 0 (length column)) ->
+  exec (reorder (acc_column_boundary_tasks de mul_add column zl) sched) acc =
+  map (fun i => mul_add (nth i acc de) (nth i column de) (i mod zl)) (seq 0 (length column)).
+Proof. intros E. exact (@acc_column_boundary_par_spec E). Qed.
+Print Assumptions C14_acc_column_boundary_par_spec.
+
+Theorem C14_per_column_par_spec : forall (C : Type) (dc : C) (col_fn : nat -> C -> C) columns sched,
+  Permutation sched (seq 0 (length columns)) ->
+  exec (reorder (per_column_tasks dc col_fn (length columns)) sched) columns =
+  map (fun c => col_fn c (nth c columns dc)) (seq 0 (length columns)).
+Proof. intros C. exact (@per_column_par_spec C). Qed.
+Print Assumptions C14_per_column_par_spec.
 
 (* ================================================================ RowMatrix transpose, constraint-evaluation fragments *)
 
